@@ -77,6 +77,7 @@ def api_call(ex, st, args, ins, fn):
         c = simp_bool(args[0])
         if c is True:
             return None
+        ex.flush_asserts(st)
         if c is False:
             raise PathEnd('assumed-away')
         if st.model is not None and z3.is_true(st.model.eval(c, model_completion=True)):
@@ -91,19 +92,10 @@ def api_call(ex, st, args, ins, fn):
         return None
     if short == 'verifAssert':
         label = args[1].decode() if isinstance(args[1], bytes) else str(args[1])
-        ok = ex.record_assert(st, label, args[0])
-        if ok is False or ok is None:
-            # continue under the assumption that the assertion holds
-            c = simp_bool(args[0])
-            if c is False:
-                raise PathEnd('assumed-away')
-            if c is not True:
-                r, m = ex.check(c, st)
-                if r == 'unsat':
-                    raise PathEnd('assumed-away')
-                st.model = m
-                ex.solver.add(c)
-                st.pc.append(c)
+        c = simp_bool(args[0])
+        ok = ex.record_assert(st, label, c)
+        if ok is False:
+            raise PathEnd('assumed-away')   # concretely false on this path: nothing lies beyond it
         return None
     if short == 'verifReach':
         label = args[0].decode()
@@ -123,21 +115,19 @@ def api_call(ex, st, args, ins, fn):
         return None
     if short in ('verifUFBool', 'verifUFInt64', 'verifUFUint64'):
         name = args[0].decode()
-        terms, sig = flatten_args(ex, st, args[1])
+        terms, sig, packed = flatten_args(ex, st, args[1])
         if short == 'verifUFBool':
             rs = z3.BoolSort()
         else:
             rs = z3.BitVecSort(64)
-        packed = pack_terms(ex, terms)
         r = uf_apply(ex, st, name, packed, sig, rs)
         st.ufapps.append((name, tuple(terms), (r,)))
         return r
     if short in ('verifUFBytes', 'verifHashBytes'):
         name = args[0].decode()
         n = args[1]
-        terms, sig = flatten_args(ex, st, args[2])
+        terms, sig, packed = flatten_args(ex, st, args[2])
         rs = z3.BitVecSort(8 * n)
-        packed = pack_terms(ex, terms)
         r = uf_apply(ex, st, name, packed, sig, rs)
         if short == 'verifHashBytes':
             # collision-freeness contract, linear encoding: an inverse function per argument
@@ -154,7 +144,7 @@ def api_call(ex, st, args, ins, fn):
                     tagf = ex.ufs[('tag', name, 8 * n)] = z3.Function('tag_%s_%d' % (name, 8 * n), rs, z3.IntSort())
                 cs = [tagf(r) == sid]
                 for k, a_ in enumerate(packed):
-                    ik = ('inv', name, sig, tuple((t.size() if z3.is_bv(t) else 'I') for t in packed), 8 * n, k)
+                    ik = ('inv', name, sig, 8 * n, k)
                     invf = ex.ufs.get(ik)
                     if invf is None:
                         invf = ex.ufs[ik] = z3.Function('inv_%s_%d_%d' % (name, len(ex.ufs), k), rs, a_.sort())
@@ -171,15 +161,27 @@ def api_call(ex, st, args, ins, fn):
         return ex.opts.get('tier') == 'thorough'
     if short == 'verifCase':
         n = args[0]
-        K = ex.opts.get('split')
-        if K and not st.ghost.get('split_done'):
-            # the first case split of a harness is partitioned over K worker processes
-            si = ex.opts.get('split_index', 0)
-            conds = [(i % K) == si for i in range(n)]
+        # The case splits at the start of a harness are partitioned over K worker processes:
+        # worker w takes the alternatives a with a = w (mod n); the workers sharing an
+        # alternative partition the next case split among themselves in the same way.
+        sp = st.ghost.get('split')
+        if sp is None and ex.opts.get('split'):
+            sp = (int(ex.opts['split']), int(ex.opts.get('split_index', 0)))
+        if sp is not None and sp[0] > 1:
+            K, w = sp
+            if n >= K:
+                conds = [(i % K) == w for i in range(n)]
+                nxt = (1, 0)
+            else:
+                a = w % n
+                conds = [i == a for i in range(n)]
+                ca = len([x for x in range(K) if x % n == a])
+                nxt = (ca, w // n)
         else:
             conds = [True] * n
+            nxt = (1, 0)
         k = ex.choose(st, conds, maporder=True)
-        st.ghost['split_done'] = True
+        st.ghost['split'] = nxt
         st.nondets.append(('case', k))
         return k
     raise Unsupported('unknown verif API ' + short)
@@ -235,7 +237,7 @@ def pack_terms(ex, terms):
 
 
 def uf_apply(ex, st, name, terms, sig, rsort):
-    key = (name, sig, tuple((t.size() if z3.is_bv(t) else 'I') for t in terms), str(rsort))
+    key = (name, sig, str(rsort))
     F = ex.ufs.get(key)
     if F is None:
         sorts = [t.sort() for t in terms]
@@ -254,63 +256,105 @@ def uf_apply(ex, st, name, terms, sig, rsort):
 
 
 def flatten_args(ex, st, sl):
-    """sl: slice of interface{} values; returns (z3 terms, signature tuple)"""
+    """sl: slice of interface{} values; returns (flat terms for the witness, signature, packed UF arguments).
+    The packing is determined by the static shape only: every byte container (string, []byte, [n]byte)
+    becomes ONE bit-vector argument (its bytes concatenated - a whole hash value stays one term),
+    every other scalar is its own argument."""
     terms = []
     sig = []
+    groups = []
     for a in ex.slice_elems(st, sl):
-        flatten_val(ex, st, a.v if isinstance(a, Iface) else a, a.t if isinstance(a, Iface) else None, terms, sig)
-    return terms, tuple(sig)
+        flatten_val(ex, st, a.v if isinstance(a, Iface) else a, a.t if isinstance(a, Iface) else None, terms, sig, groups)
+    packed = []
+    for g in groups:
+        if g[0] == 'one':
+            t = terms[g[1]]
+            if isinstance(t, bool):
+                t = z3.BitVecVal(1 if t else 0, 1)
+            elif z3.is_bool(t):
+                t = z3.If(t, z3.BitVecVal(1, 1), z3.BitVecVal(0, 1))
+            packed.append(t)
+        else:
+            els = terms[g[1]:g[2]]
+            if len(els) == 1:
+                packed.append(els[0])
+            elif els:
+                packed.append(z3.simplify(z3.Concat(*els)))
+    return terms, tuple(sig), packed
 
 
-def flatten_val(ex, st, v, tid, terms, sig):
+def is_byte_type(ex, tid):
+    t = ex.T(tid)
+    return t['cls'] == 'int' and t['bits'] == 8
+
+
+def flatten_val(ex, st, v, tid, terms, sig, groups):
     if tid is None:
         raise Unsupported('UF arg nil interface')
     t = ex.T(tid)
     c = t['cls']
     if c == 'int':
+        groups.append(('one', len(terms)))
         terms.append(bv(v, t['bits']))
         sig.append(t['bits'])
     elif c == 'bool':
+        groups.append(('one', len(terms)))
         terms.append(zbool(v))
         sig.append('b')
     elif c == 'string':
         if isinstance(v, StrAtom):
             raise Unsupported('UF arg atom string')
         el = str_elems(v)
-        sig.append('len%d' % len(el))
-        sig.pop()
-        terms.append(z3.BitVecVal(len(el), 32))
-        sig.append(32)
+        terms.append(z3.BitVecVal(len(el), 32))     # length marker: witness only, part of the signature
+        sig.append(('len', len(el)))
+        start = len(terms)
         for e in el:
             terms.append(bv(e, 8))
-            sig.append(8)
+        groups.append(('bytes', start, len(terms)))
     elif c == 'slice':
         el = ex.slice_elems(st, v)
         terms.append(z3.BitVecVal(len(el), 32))
-        sig.append(32)
+        sig.append(('len', len(el)))
         et = t['elem']
-        for e in el:
-            flatten_val(ex, st, e, et, terms, sig)
+        if is_byte_type(ex, et):
+            start = len(terms)
+            for e in el:
+                terms.append(bv(e, 8))
+            groups.append(('bytes', start, len(terms)))
+        else:
+            for e in el:
+                flatten_val(ex, st, e, et, terms, sig, groups)
     elif c == 'array':
-        for e in v:
-            flatten_val(ex, st, e, t['elem'], terms, sig)
+        if is_byte_type(ex, t['elem']):
+            sig.append(('arr', len(v)))
+            start = len(terms)
+            for e in v:
+                terms.append(bv(e, 8))
+            groups.append(('bytes', start, len(terms)))
+        else:
+            for e in v:
+                flatten_val(ex, st, e, t['elem'], terms, sig, groups)
     elif c == 'struct':
         if t['isbig']:
+            groups.append(('one', len(terms)))
             terms.append(v.v if is_sym(v.v) else z3.IntVal(v.v))
             sig.append('I')
         else:
             for e, f in zip(v, t['fields']):
-                flatten_val(ex, st, e, f['t'], terms, sig)
+                flatten_val(ex, st, e, f['t'], terms, sig, groups)
     elif c == 'ptr' and ex.T(t['elem'])['isbig']:
         b = ex.load(st, v)
+        groups.append(('one', len(terms)))
         terms.append(b.v if is_sym(b.v) else z3.IntVal(b.v))
         sig.append('I')
     elif c == 'iface':
         if v is None:
+            groups.append(('one', len(terms)))
             terms.append(z3.BitVecVal(0, 8))
             sig.append(8)
         else:
-            flatten_val(ex, st, v.v, v.t, terms, sig)
+            sig.append(('dyn', v.t))
+            flatten_val(ex, st, v.v, v.t, terms, sig, groups)
     else:
         raise Unsupported('UF arg of type ' + t['s'])
 
@@ -325,10 +369,11 @@ def errorstring_type(ex):
 
 
 @model('fmt.Errorf', 'github.com/pkg/errors.Errorf', 'github.com/pkg/errors.New', 'github.com/pkg/errors.Wrap',
-       'github.com/pkg/errors.Wrapf', 'github.com/pkg/errors.WithStack')
+       'github.com/pkg/errors.Wrapf', 'github.com/pkg/errors.WithStack', 'github.com/pkg/errors.WithMessage')
 def m_errorf(ex, st, args, ins, fn):
-    if fn['short'] in ('Wrap', 'Wrapf', 'WithStack') and args[0] is None:
-        return None
+    if fn['short'] in ('Wrap', 'Wrapf', 'WithStack', 'WithMessage'):
+        # wrapping keeps the cause (errors.Cause(err) == cause); the message is not modelled
+        return args[0]
     c = ex.new_cell(st, (b'<' + fn['name'].encode() + b'@' + ins.get('pos', '').encode() + b'>',))
     return Iface(errorstring_type(ex), Ptr(c, ()))
 
